@@ -9,7 +9,7 @@ from sa.walker import WalkOptions
 from sa.terms import (Sym, Attr, Sub, App, Num, Const, Fresh, TupleT, CompInfo, AIn, AEq, AIsInst, ACmp, f_and, f_not, implies, mk_cmp,
                       subst_formula, FTrue, FFalse, FConst)
 from .common import ENV, check_atomic, order_class, strip_versions, super_init_bindings
-from .c09 import find_comp
+from .c09 import find_comp, producer_facts
 
 PID = 'C11'
 EXPLANATION = (
@@ -37,7 +37,8 @@ def run(cx: Cx):
     # ------------------------------------------------------------ clause 1: add_cell_component
     seen = set()
     n = 0
-    for p in cx.walker.paths(add, WalkOptions(unroll=1, callee_raises=False)):
+    add_paths = cx.walker.paths(add, WalkOptions(unroll=1, callee_raises=False))
+    for p in add_paths:
         if p.end == 'raise':
             continue
         n += 1
@@ -63,25 +64,29 @@ def run(cx: Cx):
                 cx.violation('R-GUARD', add.qualname, 'list-source-stored', f"a list source is stored as {v!r}", where=where)
         else:
             seen.add('callable')
-            good = False
-            if isinstance(v, Fresh) and v.kind == 'listcomp' and isinstance(v.detail, CompInfo) and len(v.detail.gens) == 1:
-                tgt, src, conds = v.detail.gens[0]
-                if order_class(src, Sub(cells, Const('pos'))) == 'inorder' and not conds:
-                    e = v.detail.elt
-                    if isinstance(e, App) and e.fn == 'call' and e.args == (gen, tgt, cells) and not e.kw:
-                        good = True
-                    else:
-                        cx.violation('R-FWD', add.qualname, 'generator-called-with-position-then-cells',
-                                     f"the callable source is evaluated as {e!r}; every cell's value must be generator(<that cell's "
-                                     f"position>, cells)", where=where)
-                        continue
-                elif order_class(src, Sub(cells, Const('pos'))) == 'reordered':
-                    cx.violation('R-ITER', add.qualname, 'values-in-id-order', f"the callable source is evaluated over {src!r}: values no "
-                                 f"longer line up with the cell ids", where=where)
-                    continue
-            if not good:
-                cx.violation('R-ITER', add.qualname, 'one-value-per-cell-in-id-order', f"the callable source is stored as {v!r}: not "
-                             f"[generator(pos, cells) for pos in cells['pos']]", where=where)
+            from .common import list_facts
+            posc = Sub(cells, Const('pos'))
+            lf = list_facts(add_paths, p, v, lambda src: not isinstance(src, Fresh) and order_class(src, posc) == 'inorder') \
+                if isinstance(v, Fresh) else None
+            if lf is None or not lf.ok:
+                if isinstance(v, Fresh) and v.kind in ('listcomp', 'gen') and v.detail is not None and v.detail.gens and \
+                        order_class(v.detail.gens[0][1], posc) == 'reordered':
+                    cx.violation('R-ITER', add.qualname, 'values-in-id-order', f"the callable source is evaluated over "
+                                 f"{v.detail.gens[0][1]!r}: values no longer line up with the cell ids", where=where)
+                else:
+                    cx.violation('R-ITER', add.qualname, 'one-value-per-cell-in-id-order', f"the callable source is stored as {v!r}: not one "
+                                 f"generator(pos, cells) per entry of cells['pos'], in order ({lf.err if lf is not None else 'not a list built here'})",
+                                 where=where)
+                continue
+            from sa.terms import FTrue as _T
+            want_elem = App('call', (gen, lf.base_var, cells))
+            if lf.cond != _T:
+                cx.violation('R-ITER', add.qualname, 'one-value-per-cell-in-id-order', f"cells can be skipped (filter {lf.cond!r}): all later "
+                             f"values shift against the cell ids", where=where)
+            elif lf.elem != want_elem:
+                cx.violation('R-FWD', add.qualname, 'generator-called-with-position-then-cells',
+                             f"the callable source is evaluated as {lf.elem!r}; every cell's value must be generator(<that cell's position>, "
+                             f"cells)", where=where)
     if seen >= {'ndarray', 'list', 'callable'} and not any(o.verdict == 'violation' and o.function == add.qualname for o in cx.obs):
         cx.ok('R-ITER', "add_cell_component: ndarray / list / callable branches write only column `name`; callable evaluated per cell in id order",
               where=cx.where(add), function=add.qualname)
@@ -140,15 +145,11 @@ def run(cx: Cx):
 
     # ------------------------------------------------------------ clause 2: LookupGenerator arity vs the producer
     dinit = cx.fn(DW + '.__init__')
-    comp = None
-    for p in cx.walker.paths(dinit, WalkOptions(unroll=0, callee_raises=False)):
-        for e in p.events:
-            if e.kind == 'store' and e.data.get('attr') == 'cells':
-                comp = find_comp(e.data.get('value'))
-    if not (isinstance(comp, Fresh) and isinstance(comp.detail, CompInfo) and isinstance(comp.detail.elt, TupleT)):
+    pf = producer_facts(cx, dinit)
+    if pf is None or not isinstance(pf[1], TupleT):
         cx.inconclusive('R-AGREE', 'cell position producer', "the 'pos' column producer was not found", where=cx.where(dinit), function=dinit.qualname)
         return
-    arity = len(comp.detail.elt.items)
+    arity = len(pf[1].items)
     lg = cx.fn(ENV + 'LookupGenerator.__call__')
     pos = Sym(lg.params[1])
     table = Attr(Sym(lg.params[0]), 'table')
@@ -157,6 +158,13 @@ def run(cx: Cx):
         if p.end != 'return':
             continue
         v = p.last.data.get('value')
+        from sa.terms import IfT as _IfT
+        variants = [(p.cond, v)]
+        if isinstance(v, _IfT):
+            variants = [(f_and(p.cond, v.cond), v.a), (f_and(p.cond, f_not(v.cond)), v.b)]
+        for pcond, v in variants:
+            _arm(arms, pcond, v, p, pos, arity, table)
+    for _unused in ():
         depth = 0
         t = v
         idxs = []
@@ -177,9 +185,10 @@ def run(cx: Cx):
         from sa.terms import subst_atoms
         c = subst_atoms(p.cond, fold)
         arms.append((depth, c, p, t == table))
+
     reach = [(d, p) for d, c, p, ok in arms if c == FTrue]
     undecided = [(d, c) for d, c, p, ok in arms if not isinstance(c, FConst)]
-    cx.floor('LookupGenerator dispatch arms', len(arms), 3)
+    cx.floor('LookupGenerator dispatch arms', len(arms), 2)
     if undecided:
         cx.inconclusive('R-AGREE', 'LookupGenerator dispatch', f"arm conditions do not fold for a {arity}-tuple position: "
                         f"{[repr(c) for d, c in undecided]}", where=cx.where(lg), function=lg.qualname)
@@ -206,3 +215,22 @@ def run(cx: Cx):
                      f"indexing the table {d} deep is reachable through a world; the worlds {[w for w, dim in mism]} have dimensionality "
                      f"{[dim for w, dim in mism]}: a table of the world's own dimensionality cannot be used (TypeError / wrong entry)",
                      where=cx.where(lg, reach[0][1].last.line if reach else None), arity=arity, reachable_depths=depths, worlds=worlds)
+
+
+def _arm(arms, pcond, v, p, pos, arity, table):
+    from sa.terms import subst_atoms, eval_formula
+    depth = 0
+    t = v
+    while isinstance(t, Sub):
+        t = t.base
+        depth += 1
+
+    def fold(a):
+        if isinstance(a, AEq) and a.a == App('type', (pos,)):
+            return FConst(a.b in (Sym('tuple'),))
+        if isinstance(a, AIsInst) and a.x == pos:
+            return FConst(a.t in (Sym('tuple'),))
+        if isinstance(a, ACmp) and a.base == App('len', (pos,)):
+            return FConst(eval_formula(a, {a.base: Fraction(arity)}, {}))
+        return None
+    arms.append((depth, subst_atoms(pcond, fold), p, t == table))
